@@ -97,6 +97,79 @@ fn check_shape(shape: &Ast, idx: u64, all_extras: bool, light: bool, count_disti
     }
 }
 
+/// Renames the k-th identifier of the given kind (0 variable read, 1 assignment target, 2 function), in
+/// source order; returns false if there is no such identifier.
+fn rename_identifier(a: &mut Ast, kind: u8, k: usize, new: &str) -> bool {
+    fn go(a: &mut Ast, kind: u8, k: usize, n: &mut usize, new: &str) -> bool {
+        match a {
+            Ast::Var(name) => {
+                if kind == 0 {
+                    if *n == k {
+                        *name = new.to_string();
+                        return true;
+                    }
+                    *n += 1;
+                }
+                false
+            },
+            Ast::Lit(_) | Ast::Unit => false,
+            Ast::Bin(_, l, r) => go(l, kind, k, n, new) || go(r, kind, k, n, new),
+            Ast::Pre(_, e) | Ast::Partial(_, e) => go(e, kind, k, n, new),
+            Ast::Asg(_, name, e) => {
+                if kind == 1 {
+                    if *n == k {
+                        *name = new.to_string();
+                        return true;
+                    }
+                    *n += 1;
+                }
+                go(e, kind, k, n, new)
+            },
+            Ast::Call(name, e) => {
+                if kind == 2 {
+                    if *n == k {
+                        *name = new.to_string();
+                        return true;
+                    }
+                    *n += 1;
+                }
+                go(e, kind, k, n, new)
+            },
+            Ast::Tuple(es) | Ast::Chain(es) => es.iter_mut().any(|e| go(e, kind, k, n, new)),
+        }
+    }
+    go(a, kind, k, &mut 0, new)
+}
+
+/// Identifiers are just names: a variable, an assignment target or a function may be called like a builtin
+/// function, a namespace or a keyword-looking word without changing the tree. Every identifier position of
+/// the shape takes each such name in turn.
+fn check_builtin_named_identifiers(shape: &Ast, st: &mut Stats) {
+    const NAMES: [&str; 6] = ["max", "if", "math::abs", "len", "str::from", "floor"];
+    for kind in 0..3u8 {
+        for k in 0..8 {
+            let mut any = false;
+            for name in NAMES {
+                let mut ast = shape.clone();
+                name_leaves(&mut ast, None);
+                if !rename_identifier(&mut ast, kind, k, name) {
+                    break;
+                }
+                any = true;
+                let want = ast_to_nt(&ast);
+                st.count("asts-with-builtin-named-identifiers");
+                for compact in [false, true] {
+                    check_rendering(&ast, &want, Parens::Minimal, compact, st);
+                    check_rendering(&ast, &want, Parens::Full, compact, st);
+                }
+            }
+            if !any {
+                break;
+            }
+        }
+    }
+}
+
 /// `light_from`: sizes >= this are checked in light mode; `distinct_from`: sizes >= this count as distinct cases.
 fn sweep(alpha: &Alphabet, max: usize, extras_upto: usize, light_from: usize, distinct_from: usize, label: &str) -> Stats {
     let counts = shape_counts(alpha, max);
@@ -107,6 +180,9 @@ fn sweep(alpha: &Alphabet, max: usize, extras_upto: usize, light_from: usize, di
             for idx in r {
                 let shape = unrank(alpha, &counts, n, idx);
                 check_shape(&shape, idx, n <= extras_upto, n >= light_from, n >= distinct_from, &mut st);
+                if n <= 2 {
+                    check_builtin_named_identifiers(&shape, &mut st);
+                }
             }
             st
         });
@@ -217,7 +293,7 @@ pub fn run(cfg: &Cfg) -> Report {
     Report {
         property: ID,
         level: "exploration",
-        rule: format!("every AST with <= {k_full} operator nodes over the full alphabet (14 binary, 2 prefix, 9 assignment operators, f e, f(), f(l, r)) and with <= {k_rep} over one representative per precedence/associativity class; per AST: all-variable leaves plus each leaf replaced by a literal (all four literal kinds for ASTs with <= 2 operators, kinds cycled above); renderings: minimal parentheses, fully parenthesised, `x ^ -y` bare-prefix form where applicable, redundant pair (single and doubled) at every sub-expression for ASTs with <= 2 operators and at one rotating position above; each with single-space and compact spacing. the deepest representative level of the thorough tier is checked with the minimal rendering only; plus every flat infix sequence of <= 5 (quick) / 6 (thorough) binary operators over all 14 (reference: precedence climbing), plus scaling families (same-operator chains for all 14 operators, assignment chains, prefix chains, call chains, right-nested groups, precedence ladders up and down) at every size 1..20 and 33, 64, 65, 129 (quick) / 1..40 and up to 400 (thorough). Non-trivial = at least two operator nodes; every AST is enumerated once (representative ASTs are counted only above the full-alphabet size)"),
+        rule: format!("every AST with <= {k_full} operator nodes over the full alphabet (14 binary, 2 prefix, 9 assignment operators, f e, f(), f(l, r)) and with <= {k_rep} over one representative per precedence/associativity class; per AST: all-variable leaves plus each leaf replaced by a literal (all four literal kinds for ASTs with <= 2 operators, kinds cycled above), and for ASTs with <= 2 operators every variable, assignment-target and function position named like a builtin (`max`, `if`, `math::abs`, `len`, `str::from`, `floor`) in turn; renderings: minimal parentheses, fully parenthesised, `x ^ -y` bare-prefix form where applicable, redundant pair (single and doubled) at every sub-expression for ASTs with <= 2 operators and at one rotating position above; each with single-space and compact spacing. the deepest representative level of the thorough tier is checked with the minimal rendering only; plus every flat infix sequence of <= 5 (quick) / 6 (thorough) binary operators over all 14 (reference: precedence climbing), plus scaling families (same-operator chains for all 14 operators, assignment chains, prefix chains, call chains, right-nested groups, precedence ladders up and down) at every size 1..20 and 33, 64, 65, 129 (quick) / 1..40 and up to 400 (thorough). Non-trivial = at least two operator nodes; every AST is enumerated once (representative ASTs are counted only above the full-alphabet size)"),
         nontrivial_set: "counter:nontrivial-distinct",
         exhaustive: true,
         bound_completed: format!("AST size {k_full} (full alphabet), {k_rep} (class representatives)"),
